@@ -1,53 +1,98 @@
-GO_PKG = "./dual"
-GO_PKGNAME = "dual"
-HARNESS = ["dual/c08_test.go"]
-# the harness is in package dual (a test of the root package cannot import dual); the unexported knobs of IpfsDHT it
-# needs (shuffle, provider store, DisableFixLowPeers) are exported by a verif-tagged shim injected into package dht
-EXTRA_OVERLAY = {"zz_verif_c08_shim.go": "dht/c08_shim.go"}
-GO_TEST = "TestVerifC08"
 RUN_MODULE = "Run_C08"
-COQ_TARGETS = ["Corr/Run_C08.vo", "Proofs/ProvSearchProofs.vo"]
-N = {"quick": 1000, "thorough": 24000}
-RULE = ("random provider distributions: 0-15 responders (each with 0-6 provider entries out of a pool of up to 23 peers, with "
+COQ_TARGETS = ["Corr/Run_C08.vo", "Proofs/ProvSearchProofs.vo", "Proofs/ProvSearchFrtProofs.vo"]
+# Two runs, one case type (Run_C08.case = CStd | CFrt):
+#  - package dual: the standard client and the dual client (a test of the root package cannot import dual); the
+#    unexported knobs of IpfsDHT it needs (shuffle, provider store, DisableFixLowPeers) are exported by a verif-tagged
+#    shim injected into package dht
+#  - package fullrt: the accelerated client, which has its own copy of the accumulation logic; the provider manager's
+#    shuffle is fixed through a verif-tagged shim injected into package records
+GO_RUNS = [
+    {"pkg": "./dual", "pkgname": "dual", "harness": ["dual/c08_test.go"], "test": "TestVerifC08", "share": 0.5,
+     "extra_overlay": {"zz_verif_c08_shim.go": "dht/c08_shim.go"}},
+    {"pkg": "./fullrt", "pkgname": "fullrt", "harness": ["fullrt/c08_test.go"], "test": "TestVerifC08FullRT", "share": 0.5,
+     "extra_overlay": {"records/zz_verif_c08_shim.go": "records/c08_shim.go"}},
+]
+N = {"quick": 2000, "thorough": 48000}
+RULE = ("run 1 (package dual, standard and dual client): random provider distributions: 0-15 responders (each with 0-6 provider "
+        "entries out of a pool of up to 23 peers, with "
         "and without addresses, sometimes the same peer twice in one answer, 0-3 closer peers, 8% failing) and 0-5 local "
         "providers per node, 3% provider-store failures; count in {0,1,2,3,5,K,random,-1}; K in {1,2,3,5,20}, alpha and beta in "
         "1-3; injected shuffle identity / reverse / rotate; 35% of the cases run the dual client over two nodes; the real "
         "FindProvidersAsync is driven one released call at a time in a random order; 20% of the cases have a consumer that "
         "cancels after 0-5 providers, 20% a cancellation between two events; non-trivial = yields something or reaches one of "
         "upgrade / cap-reached / local-suffices / rejected-some / find-all / negative / consumer-cancelled / cancel-between / "
-        "store-error; distinct = distinct (kind, branch set, count, shuffle, number of yields) signatures")
+        "store-error; distinct = distinct (kind, branch set, count, shuffle, number of yields) signatures. "
+        "run 2 (package fullrt, accelerated client): same shapes: 0-15 responders in the routing table (bucket size K in "
+        "{1,2,3,5,20}: the min(K, table size) closest are asked, all at once), answers of 0-7 entries, 35% of the non-empty answers "
+        "get a provider that is already known (local, or named by an earlier responder) in front of / among the new ones, same peer "
+        "twice in an answer, 8% failing responders, 0-5 local providers in the real provider manager (3% manager closed, 2% providers "
+        "disabled, 1% undefined key, 3% failing datastore read), count in {0,1,2,3,5,20,K,-1}, success wait fraction in "
+        "{1/4,2/4,3/4,1}, shuffle of FullRT and of the provider manager identity / reverse / rotate; the parked GET_PROVIDERS "
+        "requests are let return one at a time in a random order, with 500 ms ticks in between (0/15/40%), 20% of the cases "
+        "cancel the context at a generated step, 20% have a consumer that leaves after 0-5 providers, and once count providers "
+        "were received a pending reply may still be delivered on the cancelled context (0/50/100%); signatures add "
+        "new-after-known / unprocessed / ticks / late-reply / the store variant")
 TRUSTED = [
     "the fake host / gated message sender / gated scripted provider store (harness/dual/c08_test.go) and testing/synctest: "
     "one answer is processed completely before the next is released",
     "the lookup (which peers are asked, in which order) is not modelled here: the processed answers are an input of the model (C01/C02 cover the lookup)",
     "protobuf encoding of provider peers and multiaddr decoding (an entry 'has addresses' iff one valid multiaddr was sent)",
+    "accelerated client: the fake host / blocking crawler / gated message sender / gated sorted datastore under the real "
+    "provider manager (harness/fullrt/c08_test.go), the routing table installed by the harness the way runCrawler installs it, "
+    "the two verif-tagged shims (harness/dht/c08_shim.go, harness/records/c08_shim.go: setters only); which peers "
+    "GetClosestPeers returns is C16's subject (only their number, min(K, table size), is checked here)",
 ]
 ASSUMPTIONS = [
     "answer granularity: two responses are never processed concurrently by the driver; psTryAdd is atomic under psLock so set "
     "membership and the cap do not depend on this, but the order of two racing channel sends (with-address before "
     "without-address) is outside the model",
     "the shuffle is a permutation (the theorems quantify over every permutation; the harness injects three)",
-    "the accelerated client (fullrt) is modelled and proved (c08_fullrt) but its correspondence is not driven here (C16's harness owns the FullRT environment)",
     "the local provider store returns each peer once (routing.go notes the same assumption)",
+    "accelerated client: execOnMany's per-operation timeout does not expire (the harness sets one hour); the success wait "
+    "fraction is a multiple of 1/4 (exact in float64); a send of an answer's loop is not interrupted by a cancellation that "
+    "another goroutine triggers while the answer is being processed (the model processes one answer at a time; a reply "
+    "delivered after the cancellation is modelled, with every outcome of its race against ctx.Done())",
 ]
 
 
 def classify(desc, code):
+    # no known findings: the defect found by the slow-consumer cases of the fullrt run (an answer in progress lost its
+    # remaining providers when execOnMany cancelled its per-peer context) is repaired in /repo (see known_findings.json)
     return None
 
 
-TECHNIQUE = ("Coq proof (invariant between the provider map and the sent sequence, by induction over the processed answers) on a "
-             "Gallina model of the accumulation / stop / merge logic, differential correspondence with the real "
-             "FindProvidersAsync of IpfsDHT and dual.DHT on a simulated network")
+def extra_coverage(outdir, impl):
+    import glob, json, os
+    per = {}
+    for d in sorted(glob.glob(os.path.join(outdir, "run_*"))):
+        try:
+            im = json.load(open(os.path.join(d, "impl.json")))
+            name = "fullrt" if "kind:fullrt" in (im.get("distribution") or {}) else "dual (standard + dual client)"
+            per[name] = {"cases": im.get("cases", 0), "distinct_nontrivial": im.get("distinct_nontrivial", 0)}
+        except Exception:
+            pass
+    return {"per_package": per}
+
+
+TECHNIQUE = ("Coq proof (invariant between the provider map and the sent sequence, by induction over the processed answers; for the "
+             "accelerated client by induction over the events of execOnMany: returning requests, ticks, cancellation, late replies) on "
+             "Gallina models of the accumulation / stop / merge logic, differential correspondence with the real "
+             "FindProvidersAsync of IpfsDHT, dual.DHT and fullrt.FullRT on simulated networks")
 LEVEL_TEXT = ("Theorems in coq/Props/C08.v hold for every count (any Go int), every list of local providers, every sequence of "
               "processed answers of any length and content, every shuffle permutation and every prefix (cancellation instant): "
               "only local or reported providers are yielded; at most count distinct peers when count>0 (none when negative); a "
               "peer is yielded twice only as without-addresses then with-addresses; once count are held the stop function "
               "holds and later answers change nothing; with count 0 every reported provider is yielded; the channel close is "
               "the last event on every path; the dual merge never repeats a peer, forwards only delivered providers and at most "
-              "count; the FullRT variant never repeats a peer. The model is compared on every run with the real "
-              "IpfsDHT.FindProvidersAsync and dual.DHT.FindProvidersAsync driven on a fake host with gated responses, and the "
+              "count. Accelerated client (Model/ProvSearchFrt.v: local phase, the n parallel requests of execOnMany returning in ANY "
+              "order mixed with ticks, a cancellation and replies that still get through after it, the success/ticker heuristics "
+              "that decide which answers are still processed, a consumer that leaves): only local providers or providers of an "
+              "answer that reached the search; no peer is ever repeated (there is no address upgrade); at most count; with count 0 "
+              "every local provider and every provider of an answer processed on a live context is yielded; once count were "
+              "received nothing returning later is processed and nothing more is yielded, late replies included; after a "
+              "cancellation nothing is processed; the channel is closed exactly once, last. The models are compared on every run "
+              "with the real IpfsDHT / dual.DHT / FullRT FindProvidersAsync driven on fake hosts with gated responses, and the "
               "property is evaluated independently of the model on every recorded trace.")
-LEVEL_NOTE = ("Proof is about the Gallina model; the tie to the Go code is the correspondence run (differential testing, bounded "
-              "by the generator, answers processed one at a time). FullRT's routine is modelled and proved but not driven. "
+LEVEL_NOTE = ("Proof is about the Gallina models; the tie to the Go code is the correspondence run (differential testing, bounded "
+              "by the generator, answers processed one at a time). "
               "Trusted: Coq kernel, vm_compute, the simulated host/sender/store, synctest.")
